@@ -12,8 +12,10 @@ import Sx.Sys
   according to the CRC outcome; the flag bits reflect the FIFO at the moment they are read;
   PayloadReady is cleared when the FIFO becomes empty; the application may do anything inside
   the callback.  `gwp` quantifies over every behaviour this environment admits; `poison` marks
-  a FIFO read while empty and any request foreign to the receive path.  The bus is fault-free
-  in this environment (failing transfers: C11).
+  a FIFO read while empty and any request foreign to the receive path.  Any transfer may fail
+  (without effect on the chip), except the recovery write with which the handler drops a packet
+  it could not read: the statements therefore also cover C11's "failures do not corrupt later
+  packets" for FSK/OOK reception.
 
   * `header_spec` / `header_any` (Sx/Lemmas/RxHeader.lean, RxLevel.lean): the header step —
     configuration registers, length byte, address byte — for both packet formats, with and
@@ -29,25 +31,6 @@ import Sx.Sys
 namespace Sx
 open Sx.Model DM
 
-theorem RxGI.irq {hdr P g} (hi : RxGI hdr P g) (v : UInt8) : RxGI hdr P { g with irq := v } :=
-  ⟨⟨hi.wf.overPending, hi.wf.readyOver, hi.wf.crc, hi.wf.crcReady, hi.wf.room⟩, hi.live, hi.stream⟩
-
-theorem RxPhase.of_eq {hdr P h h' g g'} (hp : RxPhase hdr P h g) (he : h'.expected = h.expected) (hr : h'.received = h.received)
-    (hpk : h'.packet = h.packet) (ht : g'.taken = g.taken) : RxPhase hdr P h' g' := by
-  rcases hp with ⟨a, b, c⟩ | ⟨⟨a, b, c, d⟩, e⟩
-  · exact Or.inl ⟨he.trans a, hr.trans b, ht.trans c⟩
-  · exact Or.inr ⟨⟨by rw [he]; exact a, by rw [hr]; exact b, by rw [hr, hpk]; exact c, by rw [hr, ht]; exact d⟩, by rw [he]; exact e⟩
-
-theorem RxInv.adv {hdr P h g g1} (hv : RxInv hdr P h g) (ha : g.Adv g1) :
-    RxInv hdr P h g1 ∧ g.Same g1 ∧ g.fifo.length ≤ g1.fifo.length ∧ (g.over = true → g1.over = true) := by
-  obtain ⟨hi1, hs, hl, hk, htk, hov⟩ := hv.gi.adv ha
-  exact ⟨⟨hv.cfg.of_same hs rfl rfl rfl rfl rfl, hi1, hv.phase.of_eq rfl rfl rfl htk, hk hv.kept⟩, hs, hl, hov⟩
-
-theorem RxInv.handle {hdr P h h' g} (hv : RxInv hdr P h g) (hm : h'.opmod = h.opmod) (hcb : h'.rxCb = h.rxCb)
-    (hpk : h'.packet = h.packet) (hf : h'.format = h.format) (hcr : h'.crcType = h.crcType)
-    (he : h'.expected = h.expected) (hr : h'.received = h.received) : RxInv hdr P h' g :=
-  ⟨hv.cfg.of_same (RxG.Same.refl g) hm hcb (by rw [hpk]) hf hcr, hv.gi, hv.phase.of_eq he hr hpk rfl, hv.kept⟩
-
 set_option maxRecDepth 100000 in
 theorem crc_bit_bv : ∀ b : BitVec 8, ((⟨b⟩ : UInt8) &&& 0x02 ≠ 0x02) ↔ ((⟨b⟩ : UInt8) &&& 0x02 = 0) := by decide +kernel
 theorem crc_bit (x : UInt8) : (x &&& 0x02 ≠ 0x02) ↔ (x &&& 0x02 = 0) := crc_bit_bv x.toBitVec
@@ -55,13 +38,15 @@ theorem crc_bit (x : UInt8) : (x &&& 0x02 ≠ 0x02) ↔ (x &&& 0x02 = 0) := crc_
 /-- the outcome of one handler invocation during a reception -/
 def RxPost (hdr P : List UInt8) (g g' : RxG) (h' : Handle) : Prop :=
   g'.poison = false ∧
-  ( -- still receiving; only possible if the end of the packet had not been signalled before
-    (g'.ended = false ∧ g'.cbs = g.cbs ∧ RxInv hdr P h' g' ∧ g.over = false ∧ g.Same g')
+  ( -- still receiving; only possible if the end of the packet had not been signalled before,
+    -- or if a transfer failed (the invocation then changed nothing it cannot repeat)
+    (g'.ended = false ∧ g'.cbs = g.cbs ∧ RxInv hdr P h' g' ∧ (g.over = false ∨ g'.faulted = true) ∧ g.Same g')
     ∨ -- delivered: exactly the payload, exactly its length, only with a good CRC, state reset
     (g'.ended = true ∧ g'.cbs = g.cbs ++ [.rx P P.length] ∧ (g.crcOn = true → g.crcGood = true)
       ∧ h'.expected = 0 ∧ h'.received = 0)
-    ∨ -- dropped because the CRC check failed: no callback, nothing left behind
-    (g.crcOn = true ∧ g.crcGood = false ∧ g'.ended = false ∧ g'.cbs = g.cbs ∧ h'.expected = 0 ∧ h'.received = 0
+    ∨ -- dropped because the CRC check failed, or because a transfer failed while the rest of the
+    -- complete packet was read: no callback, nothing left behind
+    (((g.crcOn = true ∧ g.crcGood = false) ∨ g'.faulted = true) ∧ g'.ended = false ∧ g'.cbs = g.cbs ∧ h'.expected = 0 ∧ h'.received = 0
       ∧ g'.fifo = [] ∧ g'.pending = [] ∧ g'.over = true ∧ g'.ready = false))
 
 theorem rx_invocation (fuel : Nat) (hfuel : 64 ≤ fuel) (hdr P : List UInt8) (h : Handle) (g : RxG) (hv : RxInv hdr P h g) :
@@ -69,7 +54,12 @@ theorem rx_invocation (fuel : Nat) (hfuel : 64 ≤ fuel) (hdr P : List UInt8) (h
   unfold fskOokHandleInterrupt
   rw [gwp_bind, gwp_rread]
   intro r g1 hr
-  obtain ⟨v, g0, hrv, ha0, hg1, hfl⟩ := rx_flags hv.gi.live r g1 hr
+  have contF : ∀ {hx : Handle} {gx gy : RxG}, RxInv hdr P hx gx → g.Same gx → gx.AdvF gy → RxPost hdr P g gy hx := by
+    intro hx gx gy hvx hsx hax
+    obtain ⟨hvy, hsy, hfy⟩ := hvx.advF hax
+    exact ⟨hvy.gi.live.1, Or.inl ⟨hvy.gi.live.2, (hsx.trans hsy).cbs, hvy, Or.inr hfy, hsx.trans hsy⟩⟩
+  rcases rx_flags hv.gi.live r g1 hr with ⟨ce, hre, hae⟩ | ⟨v, g0, hrv, ha0, hg1, hfl⟩
+  case inl => subst hre; exact contF hv (RxG.Same.refl g) hae
   subst hrv hg1
   obtain ⟨hv0, hs0, hl0, hov0⟩ := hv.adv ha0
   obtain ⟨hPR, hCRC, hPS, hOV, hLV, hEM, hFU⟩ := hfl
@@ -78,7 +68,9 @@ theorem rx_invocation (fuel : Nat) (hfuel : 64 ≤ fuel) (hdr P : List UInt8) (h
   intro r2 g2 hr2
   have hv1 : RxInv hdr P h { g0 with irq := v } :=
     ⟨hv0.cfg.of_same ⟨rfl, rfl, rfl, rfl, rfl, rfl, rfl⟩ rfl rfl rfl rfl rfl, hv0.gi.irq v, hv0.phase.of_eq rfl rfl rfl rfl, hv0.kept⟩
-  obtain ⟨g1', hr2v, ha1, hg2⟩ := rx_write3f hv1.gi.live v r2 g2 hr2
+  have hs01 : g.Same { g0 with irq := v } := hs0.trans ⟨rfl, rfl, rfl, rfl, rfl, rfl, rfl⟩
+  rcases rx_write3f hv1.gi.live v r2 g2 hr2 with ⟨ce, hre, _, hae⟩ | ⟨g1', hr2v, ha1, hg2⟩
+  case inl => subst hre; exact contF hv1 hs01 hae
   rw [if_neg (fun hn => hn hOV)] at hg2
   subst hr2v hg2
   obtain ⟨hv2, hs2, hl2, hov2⟩ := hv1.adv ha1
@@ -107,7 +99,8 @@ theorem rx_invocation (fuel : Nat) (hfuel : 64 ≤ fuel) (hdr P : List UInt8) (h
     · -- CRC failed: flush, reset, no callback
       rw [if_pos hdrop, gwp_bind, gwp_swrite]
       intro r3 g3 hr3
-      obtain ⟨g2', hr3v, ha2, hg3⟩ := rx_write3f hv2.gi.live 0x10 r3 g3 hr3
+      rcases rx_write3f hv2.gi.live 0x10 r3 g3 hr3 with ⟨ce, _, hbad0, _⟩ | ⟨g2', hr3v, ha2, hg3⟩
+      case inl => exact absurd hbad0 (by decide)
       rw [if_pos (by decide)] at hg3
       subst hr3v hg3
       obtain ⟨hi2', hs2', ho2', _, _, hp2'⟩ := adv_over hv2.gi hov2' ha2
@@ -126,10 +119,33 @@ theorem rx_invocation (fuel : Nat) (hfuel : 64 ≤ fuel) (hdr P : List UInt8) (h
         | false => rfl
         | true => rw [hx] at hcrcv; cases hcrcv
       have hsall : g.Same g2'.flush := (hsame02.trans hs2').trans hsf
-      exact ⟨hsall.poison.trans hv.gi.live.1, Or.inr (Or.inr ⟨hon, hbad, hsall.ended.trans hv.gi.live.2, hsall.cbs, rfl, rfl, hff, hpf.trans hp2', ho2', hrf⟩)⟩
+      exact ⟨hsall.poison.trans hv.gi.live.1, Or.inr (Or.inr ⟨Or.inl ⟨hon, hbad⟩, hsall.ended.trans hv.gi.live.2, hsall.cbs, rfl, rfl, hff, hpf.trans hp2', ho2', hrf⟩)⟩
     · rw [if_neg hdrop, gwp_bind, gwp_attempt]
       refine gwp_mono rxE _ _ _ _ _ ?_ (batch_ready fuel hfuel hdr P h g2 hv2.cfg hv2.gi hv2.phase hov2')
-      intro g3 r3 h3 ⟨hr3, hd3, hl3, hcbs3, _, _⟩
+      intro g3 r3 h3 hpost3
+      rcases hpost3 with ⟨hr3, hd3, hl3, hsm3, _, _⟩ | ⟨ce, hre, hfail⟩
+      case inr =>
+        -- a transfer failed: what is left of the packet is dropped
+        subst hre
+        dsimp only
+        rw [gwp_bind, gwp_swrite]
+        intro r4 g4 hr4
+        rcases rx_write3f hfail.live 0x10 r4 g4 hr4 with ⟨_, _, hbad0, _⟩ | ⟨g3', hr4v, ha3, hg4⟩
+        case inl => exact absurd hbad0 (by decide)
+        rw [if_pos (by decide)] at hg4
+        subst hr4v hg4
+        obtain ⟨hw3', hs3', _, _, hov3', _, _, _⟩ := ha3.facts hfail.wf
+        obtain ⟨ho3', _, _, _⟩ := hov3' hfail.over
+        obtain ⟨_, hsf, hff, hrf, hpf, _⟩ := RxG.flush_facts g3' hw3'
+        dsimp only
+        rw [gwp_modH]
+        have hsall : g.Same g3'.flush := ((hsame02.trans hfail.same).trans hs3').trans hsf
+        have hflt : g3'.flush.faulted = true := by
+          show g3'.faulted = true
+          rw [ha3.faulted]; exact hfail.faulted
+        exact ⟨hsall.poison.trans hv.gi.live.1, Or.inr (Or.inr ⟨Or.inr hflt, hsall.ended.trans hv.gi.live.2, hsall.cbs, rfl, rfl, hff,
+          hpf.trans (hw3'.overPending ho3'), ho3', hrf⟩)⟩
+      have hcbs3 : g3.cbs = g2.cbs := hsm3.cbs
       subst hr3
       dsimp only
       unfold rxCallback
@@ -167,7 +183,7 @@ theorem rx_invocation (fuel : Nat) (hfuel : 64 ≤ fuel) (hdr P : List UInt8) (h
       rcases hv.cfg.mode with e | e <;> rw [e] <;> decide
     rw [if_neg hnt, if_pos hv.cfg.mode]
     have cont : ∀ (g' : RxG) (h' : Handle), RxInv hdr P h' g' → g.Same g' → RxPost hdr P g g' h' :=
-      fun g' h' hv' hs' => ⟨hv'.gi.live.1, Or.inl ⟨hv'.gi.live.2, hs'.cbs, hv', hno, hs'⟩⟩
+      fun g' h' hv' hs' => ⟨hv'.gi.live.1, Or.inl ⟨hv'.gi.live.2, hs'.cbs, hv', Or.inl hno, hs'⟩⟩
     by_cases hlv : v &&& 0x20 ≠ 0 ∧ v &&& 0x80 = 0
     · rw [if_pos hlv, gwp_bind, gwp_attempt]
       have hlen : 31 < g2.fifo.length := by
@@ -181,13 +197,16 @@ theorem rx_invocation (fuel : Nat) (hfuel : 64 ≤ fuel) (hdr P : List UInt8) (h
       exact cont g3 h3 hv3 (hsame02.trans hs3)
     · rw [if_neg hlv, gwp_bind, gwp_rread]
       intro r3 g3 hr3
-      obtain ⟨⟨v3, hr3v⟩, ha3⟩ := (rx_cfg hv2.gi.live _ r3 g3 hr3).2.2.2 (Or.inl rfl)
+      rcases rx_cfg hv2.gi.live _ r3 g3 hr3 with ⟨ce, hre, hae⟩ | hcf
+      case inl => subst hre; exact contF hv2 hsame02 hae
+      obtain ⟨⟨v3, hr3v⟩, ha3⟩ := hcf.2.2.2 (Or.inl rfl)
       subst hr3v
       obtain ⟨hv3, hs3, _, _⟩ := hv2.adv ha3
       dsimp only
       rw [gwp_bind, gwp_swrite]
       intro r4 g4 hr4
-      obtain ⟨hr4v, ha4⟩ := rx_write3e hv3.gi.live v3 r4 g4 hr4
+      rcases rx_write3e hv3.gi.live v3 r4 g4 hr4 with ⟨ce, hre, hae⟩ | ⟨hr4v, ha4⟩
+      case inl => subst hre; exact contF hv3 (hsame02.trans hs3) hae
       subst hr4v
       obtain ⟨hv4, hs4, _, _⟩ := hv3.adv ha4
       dsimp only
@@ -198,7 +217,9 @@ theorem rx_invocation (fuel : Nat) (hfuel : 64 ≤ fuel) (hdr P : List UInt8) (h
         unfold fskOokGetRssi
         rw [gwp_bind, gwp_rread]
         intro r5 g5 hr5
-        obtain ⟨⟨v5, hr5v⟩, ha5⟩ := (rx_cfg hv4.gi.live _ r5 g5 hr5).2.2.2 (Or.inr rfl)
+        rcases rx_cfg hv4.gi.live _ r5 g5 hr5 with ⟨ce, hre, hae⟩ | hcf5
+        case inl => subst hre; exact contF hv4 hs04 hae
+        obtain ⟨⟨v5, hr5v⟩, ha5⟩ := hcf5.2.2.2 (Or.inr rfl)
         subst hr5v
         obtain ⟨hv5, hs5, _, _⟩ := hv4.adv ha5
         dsimp only
@@ -228,7 +249,7 @@ def RxSessInv (hdr P : List UInt8) (g : RxG) (h' : Handle) (g' : RxG) : Prop :=
   ( (g'.ended = false ∧ g'.cbs = g.cbs ∧ RxInv hdr P h' g' ∧ g.Same g')
     ∨ (g'.ended = true ∧ g'.cbs = g.cbs ++ [.rx P P.length] ∧ (g.crcOn = true → g.crcGood = true)
         ∧ h'.expected = 0 ∧ h'.received = 0)
-    ∨ (g.crcOn = true ∧ g.crcGood = false ∧ g'.ended = false ∧ g'.cbs = g.cbs ∧ h'.expected = 0 ∧ h'.received = 0
+    ∨ (((g.crcOn = true ∧ g.crcGood = false) ∨ g'.faulted = true) ∧ g'.ended = false ∧ g'.cbs = g.cbs ∧ h'.expected = 0 ∧ h'.received = 0
         ∧ g'.fifo = [] ∧ g'.pending = [] ∧ g'.over = true ∧ g'.ready = false))
 
 /-- **C03.** For every frame (either packet format, with or without address byte, any payload
@@ -241,6 +262,9 @@ def RxSessInv (hdr P : List UInt8) (g : RxG) (h' : Handle) (g' : RxG) : Prop :=
       the receive callback exactly once, with exactly the payload bytes and the exact length —
       and only if the CRC is good when CRC is on;
     * a packet with a bad CRC is dropped without callback, the FIFO flushed, nothing pending;
+    * any transfer may fail (the recovery write excepted): the invocation then either changed
+      nothing it cannot repeat, or — if the complete packet was being read — drops the packet
+      in the same way; it never delivers a packet whose read failed;
     * in both cases `expected_packet_length` and the byte counter are zero afterwards: the next
       packet starts from the same state as the first one. -/
 theorem C03_session (fuel : Nat) (hfuel : 64 ≤ fuel) (hdr P : List UInt8) (h : Handle) (g : RxG)
@@ -249,16 +273,17 @@ theorem C03_session (fuel : Nat) (hfuel : 64 ≤ fuel) (hdr P : List UInt8) (h :
   | nil => exact ⟨hv.gi.live.1, Or.inl ⟨hv.gi.live.2, rfl, hv, RxG.Same.refl g⟩⟩
   | @irq h1 g1 h2 g2 r _ hopen hrun ih =>
     obtain ⟨_, hcase⟩ := ih
-    rcases hcase with ⟨_, hcbs1, hv1, hsm1⟩ | ⟨he, _⟩ | ⟨_, _, _, _, _, _, _, _, hov, hrd⟩
+    rcases hcase with ⟨_, hcbs1, hv1, hsm1⟩ | ⟨he, _⟩ | ⟨_, _, _, _, _, _, _, hov, hrd⟩
     · have hs1 : g1.crcOn = g.crcOn ∧ g1.crcGood = g.crcGood := by
         refine ⟨?_, hsm1.crcGood⟩
         unfold RxG.crcOn; rw [hsm1.cfg1]
       obtain ⟨hp2, hcase2⟩ := Prog.gwp_runs hrun (rx_invocation fuel hfuel hdr P h1 g1 hv1)
       refine ⟨hp2, ?_⟩
-      rcases hcase2 with ⟨he2, hcbs2, hv2, _, hsm2⟩ | ⟨he2, hcbs2, hcrc, hx, hy⟩ | ⟨hon, hbad, he2, hcbs2, hx, hy, hf, hp, ho, hr⟩
+      rcases hcase2 with ⟨he2, hcbs2, hv2, _, hsm2⟩ | ⟨he2, hcbs2, hcrc, hx, hy⟩ | ⟨hwhy, he2, hcbs2, hx, hy, hf, hp, ho, hr⟩
       · exact Or.inl ⟨he2, hcbs2.trans hcbs1, hv2, hsm1.trans hsm2⟩
       · exact Or.inr (Or.inl ⟨he2, by rw [hcbs2, hcbs1], by rw [← hs1.1, ← hs1.2]; exact hcrc, hx, hy⟩)
-      · exact Or.inr (Or.inr ⟨by rw [← hs1.1]; exact hon, by rw [← hs1.2]; exact hbad, he2, hcbs2.trans hcbs1, hx, hy, hf, hp, ho, hr⟩)
+      · exact Or.inr (Or.inr ⟨hwhy.imp (fun ⟨hon, hbad⟩ => ⟨by rw [← hs1.1]; exact hon, by rw [← hs1.2]; exact hbad⟩) id,
+          he2, hcbs2.trans hcbs1, hx, hy, hf, hp, ho, hr⟩)
     · rw [hopen.1] at he; cases he
     · have := hopen.2 hov; rw [hrd] at this; cases this
 
@@ -350,7 +375,7 @@ example : rxR { pending := [2, 7, 9], cfg1 := 0x98 } (.rread 0x3f) (.u8 (.ok 0x0
     { fifo := [2, 7], pending := [9], cfg1 := 0x98, irq := 0 } := by
   unfold rxR
   simp only [Bool.false_eq_true, or_self, ↓reduceIte]
-  refine ⟨trivial, 2, false, ⟨by decide, by decide⟩, ?_⟩
+  refine Or.inl ⟨trivial, 2, false, ⟨by decide, by decide⟩, ?_⟩
   unfold rxAnswer
   simp only [↓reduceIte]
   refine ⟨rfl, ?_⟩
